@@ -261,6 +261,33 @@ func waitNoPoolWorker(d time.Duration) bool {
 	}
 }
 
+// waitWorkerParkedInPush waits until a goroutine running the worker closure of NewParameterPool is
+// parked in its `select { case pool <- persisted: … case <-ctx.Done(): … }` (state "select", not
+// inside the harness's generateFn).
+func waitWorkerParkedInPush(d time.Duration) bool {
+	deadline := time.Now().Add(d)
+	buf := make([]byte, 1<<20)
+	for {
+		n := runtime.Stack(buf, true)
+		for _, g := range strings.Split(string(buf[:n]), "\n\n") {
+			if !strings.Contains(g, "generator.NewParameterPool[") || strings.Contains(g, ").generate(") {
+				continue
+			}
+			head := g
+			if i := strings.Index(g, "\n"); i >= 0 {
+				head = g[:i]
+			}
+			if strings.Contains(head, "[select") {
+				return true
+			}
+		}
+		if time.Now().After(deadline) {
+			return false
+		}
+		time.Sleep(100 * time.Microsecond)
+	}
+}
+
 // sendCmd hands the next command to the generator goroutine, which the unchanged code always
 // picks up (it is waiting in generateFn).
 func sendCmd(ch chan genCmd, c genCmd) bool {
@@ -384,12 +411,18 @@ func runPool[T any](size int, steps []string, st backend[T]) (string, string) {
 					return "STUCK push", "stuck"
 				}
 			case full && !failed:
-				pending = true // the push blocks: nobody receives until the next GetNow
+				// the push blocks: nobody receives until the next GetNow. Wait until the generator
+				// goroutine is really parked in that send: with an unbuffered pool (size 0) GetNow's
+				// non-blocking receive only finds a sender that is already waiting.
+				if !waitWorkerParkedInPush(longWait()) {
+					return "STUCK park", "stuck"
+				}
+				pending = true
 			default:
 				// full pool and failed save: code that skips the push comes back at once,
 				// code that still pushes blocks.
 				if !waitCh(in.ready, blockedProbe) {
-					pending = true
+					pending = waitWorkerParkedInPush(longWait())
 				}
 			}
 			if pending {
@@ -546,8 +579,8 @@ func gen(r *hx.Rng, n int, tier string) []string {
 			continue
 		}
 		size := r.Range(1, 4)
-		if r.Chance(1, 12) {
-			size = 0
+		if r.Chance(1, 12) || i%15 == 7 {
+			size = 0 // unbuffered pool
 		}
 		ln := r.Range(1, 14)
 		if r.Chance(1, 8) {
